@@ -10,7 +10,7 @@ from ..ctx import engine
 from ..model import AnalysisError, Program
 from ..paths import CannotEval, SymPath, evaluate, feasible_paths, show
 from ..report import Report
-from .common import is_loop_var, HELPERS, LOGIC, RUNNERS, attr, ctor_args, enum_name
+from .common import is_attempt_no, is_loop_var, HELPERS, LOGIC, RUNNERS, attr, ctor_args, enum_name
 from .runner_flow import ALL_KINDS, EXC_KINDS, RunnerClient, flag1, run_runners, short_witness
 
 CANCEL = ("CancelledError", "KeyboardInterrupt", "SystemExit", "GeneratorExit", "OtherBase")
@@ -27,6 +27,10 @@ class EscapeClient(RunnerClient):
         "classifier": ("OtherException",),
         "sleeper": ("OtherException",),
         "sleep_handler": ("OtherException",),
+        # observability hooks may fail too: their exceptions must never leave execute() (they are not in USER_LOGIC)
+        "before_sleep": ("OtherException",),
+        "on_metric": ("OtherException",),
+        "on_log": ("OtherException",),
     }
     await_fault = ("CancelledError", "GeneratorExit")
 
@@ -224,7 +228,7 @@ def check_runner_fields(rep: Report, prog: Program) -> None:
                     invoked = e
                     av = current_local(p, e, "attempts")
                     rep.instance("R11.3", f"{name}|at-invocation|{show(av)}")
-                    if is_loop_var(av):
+                    if is_attempt_no(av, p):
                         rep.ok("R11.3")
                     else:
                         rep.fail("R11.3", f"{name}|attempts-at-invocation", f"{q}: when the operation is invoked `attempts` is {show(av)}, not the loop variable (an attempt that raises would not be counted)", where=f"{fi.module.relpath}:{e.lineno}", function=q, path=p.describe())
@@ -238,7 +242,7 @@ def check_runner_fields(rep: Report, prog: Program) -> None:
                                 a = e.args[i]
                     rep.instance("R11.3", f"{name}|outcome-site@{e.lineno}|{show(a)}")
                     want_iter = invoked is not None
-                    good = a is not None and (is_loop_var(a) if want_iter else (a == ("const", 0) or is_loop_var(a) or a[0] == "havoc" or a == ("free", "attempts")))
+                    good = a is not None and (is_attempt_no(a, p) if want_iter else (a == ("const", 0) or is_attempt_no(a, p) or a[0] == "havoc" or a == ("free", "attempts")))
                     if good:
                         rep.ok("R11.3")
                     else:
@@ -256,14 +260,57 @@ def check_runner_fields(rep: Report, prog: Program) -> None:
                             rep.ok("R11.4")
                         else:
                             rep.fail("R11.4", f"{name}|ok={show(okv)}|success_edge={on_success}", f"{q}: _build_outcome(ok={show(okv)}, value={show(e.kwargs.get('value'))}) on the {'success' if on_success else 'failure'} edge", where=f"{fi.module.relpath}:{e.lineno}", function=q, path=p.describe())
-                        ns = e.kwargs.get("next_sleep_s")
-                        if ns is not None:
-                            rep.instance("R11.5", f"{name}|next_sleep_s@{e.lineno}")
-                            good5 = ns[0] == "ite" and ns[3] == ("const", None) and ns[2][0] == "attr" and ns[2][2] == "sleep_s" and ns[1] == ("cmp", "is", ("attr", ns[2][1], "decision"), ("enum", "AttemptDecision", "SCHEDULED")) and ns[2][1][0] == "call" and "failure_outcome" in str(ns[2][1][2])
-                            if good5:
-                                rep.ok("R11.5")
+                    # R11.5, decided by value: at every outcome site that follows this iteration's failure handling the
+                    # next_sleep_s handed on equals (outcome.sleep_s if the attempt was SCHEDULED else None) for every
+                    # attempt decision and every delay (0.0 included) compatible with the path
+                    if (e.is_repo(":_build_outcome") or e.is_repo(":build_scheduled_outcome")) and not (e.is_repo(":_build_outcome") and e.frames and any(fr[0].func.qual.endswith(":build_scheduled_outcome") for fr in e.frames)):
+                        fo = [x for x in p.calls() if ("failure_outcome" in x.label) and p.index_of(x) < p.index_of(e)]
+                        if fo and e.kwargs.get("ok", ("const", False)) != ("const", True):
+                            oc = fo[-1].result
+                            ns = e.kwargs.get("next_sleep_s", ("const", None))
+                            n_ns = 0
+                            bad5 = None
+                            for decision in ("SCHEDULED", "RAISE", "ABORTED"):  # RETRY continues the loop (C03 R3.2 / determine_action_from_outcome)
+                                # domain = the rows of the _finalize_attempt table (C03 R3.2): RAISE / ABORTED outcomes
+                                # carry sleep_s=None, SCHEDULED / RETRY carry the delay
+                                for delay in ((0.0, 1.5) if decision == "SCHEDULED" else (None,)):
+
+                                    def leaf5(t: Any, decision: str = decision, delay: Any = delay) -> Any:
+                                        if t == attr(oc, "decision"):
+                                            return ("enum", "AttemptDecision", decision)
+                                        if t == attr(oc, "sleep_s"):
+                                            return delay
+                                        raise CannotEval()
+
+                                    feasible = True
+                                    for a5, pol5, _ in p.conds:
+                                        try:
+                                            from ..paths import truth
+
+                                            if truth(a5, leaf5) != pol5:
+                                                feasible = False
+                                                break
+                                        except CannotEval:
+                                            continue
+                                    if not feasible:
+                                        continue
+                                    try:
+                                        got5 = evaluate(ns, leaf5)
+                                    except CannotEval:
+                                        bad5 = f"next_sleep_s={show(ns)} is not a function of the attempt outcome"
+                                        break
+                                    n_ns += 1
+                                    want5 = delay if decision == "SCHEDULED" else None
+                                    if got5 != want5:
+                                        bad5 = f"with decision {decision} and delay {delay!r} the outcome reports next_sleep_s={got5!r}, expected {want5!r}"
+                                        break
+                                if bad5:
+                                    break
+                            rep.instance("R11.5", f"{name}|next_sleep_s@{e.lineno}|{show(ns)[:50]}")
+                            if bad5:
+                                rep.fail("R11.5", f"{name}|next_sleep_s|{bad5[:50]}", f"{q}: {bad5} (next_sleep_s must be `outcome.sleep_s if outcome.decision is AttemptDecision.SCHEDULED else None`)", where=f"{fi.module.relpath}:{e.lineno}", function=q, path=p.describe())
                             else:
-                                rep.fail("R11.5", f"{name}|next_sleep_s", f"{q}: next_sleep_s={show(ns)}; expected `outcome.sleep_s if outcome.decision is AttemptDecision.SCHEDULED else None`", where=f"{fi.module.relpath}:{e.lineno}", function=q)
+                                rep.ok("R11.5")
         if n_sites < 6:
             raise AnalysisError(f"{q}: only {n_sites} outcome construction sites on enumerated paths")
     rep.floor("R11.3", 20)
@@ -350,3 +397,13 @@ def run(rep: Report, prog: Program, tier: str) -> None:
     check_build_outcome(rep, prog)
     check_runner_fields(rep, prog)
     check_no_retry_builders(rep, prog)
+    rep.rule("R11.7", "the stop reason an execute() outcome reports is the reason of the run's terminal event (re-run of C14 R14.1/R14.2 on the two execute runners): the run state is updated wherever a terminal event is emitted, so outcome.stop_reason is never stale or None for a failed run")
+    rep.rule("R11.7a", "event protocol on the execute runners (re-run of C14 R14.1)")
+    from .c14 import protocol
+
+    protocol(rep, "R11.7a", "R11.7", prog, which=("sync_execute", "async_execute"))
+    rep.floor("R11.7", 15)
+    rep.rule("R11.5b", "the attempt-outcome table R11.5 relies on (re-run of C03 R3.2): only SCHEDULED / RETRY attempt outcomes carry a delay, RAISE and ABORTED carry sleep_s=None")
+    from .c03 import check_finalize
+
+    check_finalize(rep, prog, rid="R11.5b")
